@@ -66,7 +66,16 @@ class Engine(Interp):
         return Closure(e, fr.env, fr.glb)
 
     def ev_Attribute(self, e, fr, pc):
-        return self.getattr(self.ev(e.value, fr, pc), e.attr, pc)
+        return self.getattr(self.ev(e.value, fr, pc), self.mangle(e.attr, fr), pc)
+
+    @staticmethod
+    def mangle(attr, fr):
+        """private-name mangling of `__name` inside a class body"""
+        if attr.startswith("__") and not attr.endswith("__"):
+            parts = (fr.qualname or "").split(".")
+            if len(parts) >= 2 and parts[-2] != "<locals>":
+                return "_" + parts[-2].lstrip("_") + attr
+        return attr
 
     def ev_IfExp(self, e, fr, pc):
         c = self.to_bool(self.ev(e.test, fr, pc))
@@ -293,6 +302,14 @@ class Engine(Interp):
                 return False
             cs = [self._lb(self.equal(p, q, pc)) for p, q in zip(a, b)]
             return self._boolify(z3.simplify(z3.And(*cs))) if cs else True
+        if isinstance(a, Opaque) and isinstance(b, Opaque) and getattr(a, "term", None) is not None and getattr(b, "term", None) is not None:
+            if getattr(a, "length", None) is not None and getattr(b, "length", None) is not None and a.length != b.length:
+                return False
+            return self._boolify(a.term == b.term)          # ideal byte strings: equal iff the terms they stand for are equal
+        if isinstance(a, Opaque) and getattr(a, "term", None) is not None and not isinstance(b, Opaque):
+            return False if not isinstance(b, (bytes, bytearray)) or getattr(a, "length", len(b)) != len(b) else self._boolify(a.term == int.from_bytes(bytes(b), "big") - (1 << 200))
+        if isinstance(b, Opaque) and getattr(b, "term", None) is not None and not isinstance(a, Opaque):
+            return self.equal(b, a, pc)
         if isinstance(a, (Opaque,)) or isinstance(b, (Opaque,)):
             raise Unsupported("equality on opaque value")
         if isinstance(a, str) or isinstance(b, str):
@@ -317,6 +334,17 @@ class Engine(Interp):
                 return self._boolify(z3.simplify(z3.And(*cs))) if cs else True
             if a is b:
                 return True
+            if len(a.items) == len(b.items):
+                # positional comparison: exact when both lists were built with the same layout of optional elements
+                cs = []
+                for (ca, x), (cb, y) in zip(a.items, b.items):
+                    ca, cb = self._lb(ca), self._lb(cb)
+                    try:
+                        same = self._lb(self.equal(x, y, pc))
+                    except UndefinedUse:
+                        same = FALSE
+                    cs.append(z3.And(ca == cb, z3.Implies(ca, same)))
+                return self._boolify(z3.simplify(z3.And(*cs))) if cs else True
             raise Unsupported("equality on guarded lists")
         if isinstance(a, (SList, SDict)) or isinstance(b, (SList, SDict)):
             return False
@@ -482,6 +510,8 @@ class Engine(Interp):
             raise Unsupported("symbolic slice bound")
         if isinstance(obj, SBytes):
             return SBytes(obj.bs[lo:hi])
+        if isinstance(obj, Opaque) and getattr(obj, "slicer", None) is not None:
+            return obj.slicer(obj, lo, hi)
         if isinstance(obj, SList):
             if all(self.pybool(c) is True for c, _ in obj.items):
                 return SList(obj.items[lo:hi])
@@ -749,6 +779,9 @@ class Engine(Interp):
                     continue
                 out.extend((z3.And(c, self._lb(c2)), x) for c2, x in self.iterate(v, z3.And(pc, c)))
             return out
+        if it is None:
+            self.raises.append((pc, TypeError))        # 'NoneType' object is not iterable
+            return []
         if isinstance(it, SList):
             return list(it.items)
         if isinstance(it, SDict):
